@@ -43,12 +43,18 @@ SessionObject::SessionObject(SessionObjectStore* inParent, CK_SLOT_ID inSlotID, 
 	objectMutex = MutexFactory::i()->getMutex();
 	valid = (objectMutex != NULL);
 	parent = inParent;
+	inTransaction = false;
 }
 
 // Destructor
 SessionObject::~SessionObject()
 {
 	discardAttributes();
+
+	for (std::map<CK_ATTRIBUTE_TYPE, OSAttribute*>::iterator i = savedAttributes.begin(); i != savedAttributes.end(); i++)
+	{
+		delete i->second;
+	}
 
 	MutexFactory::i()->recycleMutex(objectMutex);
 }
@@ -297,19 +303,56 @@ void SessionObject::discardAttributes()
 	}
 }
 
-// These functions are just stubs for session objects
+// Session objects live in memory only: a transaction keeps a copy of the
+// attributes so that an aborted transaction leaves the object as it was
+static void deleteAttributeMap(std::map<CK_ATTRIBUTE_TYPE, OSAttribute*>& attrs)
+{
+	for (std::map<CK_ATTRIBUTE_TYPE, OSAttribute*>::iterator i = attrs.begin(); i != attrs.end(); i++)
+	{
+		delete i->second;
+	}
+	attrs.clear();
+}
+
 bool SessionObject::startTransaction(Access)
 {
+	MutexLocker lock(objectMutex);
+
+	if (inTransaction) return true;
+
+	for (std::map<CK_ATTRIBUTE_TYPE, OSAttribute*>::iterator i = attributes.begin(); i != attributes.end(); i++)
+	{
+		if (i->second == NULL) continue;
+
+		savedAttributes[i->first] = new OSAttribute(*i->second);
+	}
+
+	inTransaction = true;
+
 	return true;
 }
 
 bool SessionObject::commitTransaction()
 {
+	MutexLocker lock(objectMutex);
+
+	deleteAttributeMap(savedAttributes);
+	inTransaction = false;
+
 	return true;
 }
 
 bool SessionObject::abortTransaction()
 {
+	MutexLocker lock(objectMutex);
+
+	if (!inTransaction) return true;
+
+	deleteAttributeMap(attributes);
+	attributes = savedAttributes;
+	savedAttributes.clear();
+	inTransaction = false;
+
 	return true;
 }
 
